@@ -400,6 +400,11 @@ impl Env {
         })
     }
 
+    /// raw dump: every column on the in-memory store, the written columns on RocksDB
+    pub fn dump(&self) -> crate::store::Dump {
+        crate::store::dump_cols(&self.inner, self.backend == Backend::Memory)
+    }
+
     /// stop the importer, release the store, delete the temp dir
     pub fn close(self) {
         let Env {
